@@ -117,6 +117,9 @@ def verdict_class(v):
     return " ".join(t[2:]) if len(t) >= 3 and t[0] == "bad" else v
 
 
+DYN_POLY_STATS = {"statuses_decided": 0, "certificates_tested": 0, "queries_seen": 0}
+
+
 def dyn_poly_verdict(case):
     """Polynomial oracle for histories of ANY size, judged on the implementation's recorded outcomes (independent of the
     brute-force oracle, which judges up to 10 live arguments, and of the model): the framework after each step is
@@ -146,8 +149,18 @@ def dyn_poly_verdict(case):
         if lab not in m.live or not outs:
             continue
         o = outs[0].split()
-        if len(o) < 3 or o[0] != "acc" or o[1] not in ("YES", "NO"):
-            continue
+        # structural part (no enumeration needed, any size): a query on a live argument never panics, answers with a
+        # status, and carries a certificate exactly when one was asked for and the status promises one
+        if o and o[0] == "panic":
+            return "bad %d query-panicked" % n
+        if len(o) < 3 or o[0] != "acc" or o[1] not in ("YES", "NO") or o[2] not in ("cert", "nocert"):
+            return "bad %d unparsable-output" % n
+        asked = len(t) >= 4 and t[3] == "cert"
+        promised = asked and ((q == "DC" and o[1] == "YES") or (q == "DS" and o[1] == "NO"))
+        if promised and o[2] != "cert":
+            return "bad %d certificate-missing" % n
+        if not promised and o[2] == "cert":
+            return "bad %d certificate-not-promised" % n
         attackers = {a: set() for a in m.live}
         targets = {a: set() for a in m.live}
         for (a, b) in m.rel:
@@ -171,11 +184,15 @@ def dyn_poly_verdict(case):
             want = True
         elif q == "DC" and lab in D:
             want = False
+        DYN_POLY_STATS["queries_seen"] += 1
+        if want is not None:
+            DYN_POLY_STATS["statuses_decided"] += 1
         if want is not None and (o[1] == "YES") != want:
             return "bad %d poly-status-%s-decided-by-the-grounded-extension-expected-%s" % (n, o[1], "YES" if want else "NO")
         if o[2] != "cert":
             continue
         S = set()
+        DYN_POLY_STATS["certificates_tested"] += 1
         for mem in o[3:]:
             i, _, l = mem.partition(":")
             if l not in m.live or str(ident.get(l)) != i:
@@ -267,9 +284,10 @@ def minimise(runner, case, vclass, allow_invalid, budget=250):
                 steps = cut
     # 2. ddmin
     chunk = max(1, len(steps) // 2)
-    while runner.n - start < budget:
+    ctx = runner.ctx
+    while runner.n - start < budget and ctx.time_left() > 240:
         i, progress = 0, False
-        while i < len(steps) and runner.n - start < budget:
+        while i < len(steps) and runner.n - start < budget and ctx.time_left() > 240:
             cand = steps[:i] + steps[i + chunk:]
             if fails(cand):
                 steps, progress = cand, True
@@ -282,7 +300,7 @@ def minimise(runner, case, vclass, allow_invalid, budget=250):
             chunk = max(1, chunk // 2)
     # 3. pairs of non-adjacent steps (e.g. an insertion and the removal that undoes it)
     progress = True
-    while progress and runner.n - start < budget:
+    while progress and runner.n - start < budget and ctx.time_left() > 240:
         progress = False
         for i in range(len(steps)):
             for j in range(i + 1, len(steps)):
@@ -478,6 +496,8 @@ def dynamic_check(ctx, invalid, total, rule, modelled=True):
     # ---- report failing histories, minimised
     runner = Runner(ctx, h, d)
     seen_classes = {}
+    for c, v in failing[:6]:
+        ctx.provisional.append(("%s: %s (history of %d steps)" % (c.kind, v, len(steps_of(c))), c.text()))
     for c, v in failing:
         kind = c.kind.split("/")[-1]
         vc = verdict_class(v)
@@ -517,6 +537,9 @@ def dynamic_check(ctx, invalid, total, rule, modelled=True):
         "not_modelled": stats["not_modelled"],
     })
     ctx.cov["not_yet_proved"] = NOT_YET_PROVED
+    stats["polynomial_oracle"] = dict(DYN_POLY_STATS)
+    ctx.floor("statuses_decided_by_the_polynomial_oracle", DYN_POLY_STATS["statuses_decided"])
+    ctx.floor("certificates_tested_by_the_polynomial_oracle", DYN_POLY_STATS["certificates_tested"])
     poly_oracle_tie(ctx)
     ctx.floor("histories_compared_with_the_model", sum(stats["compared_with_model"].values()))
     ctx.floor("recorded_sat_answers_validated", stats.get("sat_answers_validated", 0))
@@ -558,6 +581,9 @@ def replay(ctx, path):
             v = verdict_of(specs[i])
             print("oracle: " + v)
             bad = bad or v.startswith("bad")
+        pv = dyn_poly_verdict(c)
+        print("polynomial oracle: " + (pv or "no objection"))
+        bad = bad or pv is not None
         if i < len(models):
             why = compare_with_model(c, models[i])
             print("model : " + ("agrees" if why is None else why))
